@@ -44,6 +44,18 @@ def c11 (m : MsSt) (ln : Nat) (t : List String) : Option (MsSt × List String) :
     let (r, o) := rout (readVec m.r (nOfTok sz)) m.r (fun v => iTok v.1 ++ " " ++ sTok (hex v.2)); some ({ m with r := r }, o)
   | ["ms.r", "str"] =>
     let (r, o) := rout (readVec m.r 1) m.r (fun v => iTok v.1 ++ " " ++ sTok (hex v.2)); some ({ m with r := r }, o)
+  | "fs.crash" :: oldlen :: k :: j :: ws =>
+    -- the replacement protocol with abstract contents: old state = `oldlen` bytes of 1, new = chunks of 2
+    let sOld : List UInt8 := List.replicate (nOfTok oldlen) 1
+    let chunks : List (List UInt8) := ws.map fun w => List.replicate (nOfTok w) 2
+    let sNew := chunks.flatten
+    let d := FS.crashAt { f := some sOld, old := none } (FS.replaceOps chunks) (nOfTok k) (nOfTok j)
+    let cls (x : Option (List UInt8)) : String :=
+      match x with
+      | none => "sabsent i0"
+      | some b => if b == sNew then "snew " ++ iTok b.length else if b == sOld then "sold " ++ iTok b.length
+                  else if b.isPrefixOf sNew then "spartial " ++ iTok b.length else "sother " ++ iTok b.length
+    some (m, [out ln "f" (cls d.f), out ln "old" (cls d.old)])
   | _ => none
 
 end Drv
